@@ -264,7 +264,6 @@ theorem tail345 (ed : Nat) (hfam : famOK ed = true) (cfg : EncCfg) (hc : cfg.ign
         rw [finish_ok cfg hc _ (w ++ b3 ++ b4 ++ b5) _ len (by rw [reg_keep _ _ nl5]; exact hL4)
           (by simp only [List.length_append]; omega)]
 
-set_option maxHeartbeats 1000000 in
 /-- **the section loop on the bundled layouts of edition `ed`** is the concatenation of the canonical
     sections -/
 theorem encodeBits_canon (ed : Nat) (hfam : famOK ed = true) (h01 : sec01OK ed = true)
